@@ -37,7 +37,11 @@ EXPLANATION = (
   "which happens before the bundle's recalculation (R5); the RecalcWhen constants equal the "
   "TypeScript enum (R6); edges leave the dependency graph only through "
   "Graph.clear_dependencies, i.e. when the depending column drops them -- trigger edges are not "
-  "re-created before the end of the bundle (R7). Not decided: the exact firing set (value level).")
+  "re-created before the end of the bundle (R7); adds and updates agree on explicit values: every "
+  "record doc action that itself stores supplied values (BulkAddRecord, BulkUpdateRecord) "
+  "exempts them for each supplied non-formula column, and doBulkUpdateRecord / "
+  "doBulkAddOrReplace lift the exemption only for columns whose record has "
+  "recalcOnChangesToSelf (R8). Not decided: the exact firing set (value level).")
 
 
 def check(run, repo, tier):
@@ -49,6 +53,7 @@ def check(run, repo, tier):
   V(run, repo, r5_rebuild_trigger)
   V(run, repo, r6_enum, repo)
   V(run, repo, r7_edges_removed_by_dependent_only)
+  V(run, repo, r8_sibling_agreement)
   H.finish_views(run, repo)
 
 
@@ -453,17 +458,16 @@ MAP = "_prevent_recompute_map"
 READ_METHODS = ("get", "items", "keys", "values", "__contains__", "copy")
 
 
-def r3_exemptions(run, w):
-  R3 = run.rule("C15-R3", "explicit values are exempted by the doc action; the exemption map is "
-                "written only by prevent_recalc, cleared per user action, and only read by "
-                "_recompute_step, which subtracts it without mutation", floor=8)
-  # doc action
-  fn = w.fn("docactions.DocActions.BulkUpdateRecord")
+def _exempts_supplied(run, RID, w, fn):
+  """One obligation: the record doc action `fn` (table_id, row_ids, <column values>) exempts, for
+  every supplied column that is not a formula column, exactly the rows it wrote."""
   ps = fn.fi.params()
+  if len(ps) < 4:
+    raise AnalysisError("%s: unexpected parameters" % fn.qualname)
   p_rows, p_cols = ps[2], ps[3]
   prev = [(n, c) for (n, c, nm) in fn.calls() if E.is_engine_call("prevent_recalc")(c, nm, fn)]
   if len(prev) > 1:
-    raise AnalysisError("DocActions.BulkUpdateRecord: several prevent_recalc calls")
+    raise AnalysisError("%s: several prevent_recalc calls" % fn.qualname)
   ok = len(prev) == 1
   wit = None
   if ok:
@@ -476,38 +480,63 @@ def r3_exemptions(run, w):
       if isinstance(s, ast.For) and any(x is pc for x in ast.walk(s)) and \
           text(H.strip_passthrough(s.iter)) in (p_cols + ".items()", p_cols, p_cols + ".keys()"):
         loop = s
-    ok = loop is not None
-    if not ok:
-      raise AnalysisError("DocActions.BulkUpdateRecord: prevent_recalc is not in a loop over "
-                          "the written columns")
-    if ok:
-      bflow = H.Flow(fn)
-      cid = text(loop.target.elts[0]) if isinstance(loop.target, ast.Tuple) else text(loop.target)
-      def column_of(e):
-        """e denotes <table>.get_column(<the loop's column id>)"""
-        v = H.inline(bflow, e)
-        return isinstance(v, ast.Call) and isinstance(v.func, ast.Attribute) and \
-            v.func.attr == "get_column" and [text(a) for a in v.args] == [cid]
-      nodearg = b.get(eps[1])
-      is_col = isinstance(nodearg, ast.Attribute) and nodearg.attr == "node" and \
-          column_of(nodearg.value)
-      def key(e):
-        if isinstance(e, ast.Call) and isinstance(e.func, ast.Attribute) and \
-            e.func.attr == "is_formula" and not e.args and column_of(e.func.value):
-          return "is-formula"
-        return None
-      actual = H.Conditions(fn, bflow, key).of_stmt(_stmt_of(fn.node, pc), scope=loop)
-      ok = is_col and eps[2] in b and text(b[eps[2]]) == p_rows and eps[3] in b and \
-          isinstance(b[eps[3]], ast.Constant) and b[eps[3]].value is True and \
-          H.f_equivalent(actual, H.f_not(H.f_atom("is-formula")))
-      wit = "exempted when " + H.f_show(actual)
-      # the write loop for the same column precedes it
-      sets = fn.nodes_calling(E.is_column_mutation)
-      ok = ok and bool(sets)
-  run.ob(R3, fn.qualname, "if not col.is_formula(): prevent_recalc(col.node, %s, "
+    if loop is None:
+      raise AnalysisError("%s: prevent_recalc is not in a loop over the written columns"
+                          % fn.qualname)
+    bflow = H.Flow(fn)
+    cid = text(loop.target.elts[0]) if isinstance(loop.target, ast.Tuple) else text(loop.target)
+    def column_of(e):
+      """e denotes <table>.get_column(<the loop's column id>)"""
+      v = H.inline(bflow, e)
+      return isinstance(v, ast.Call) and isinstance(v.func, ast.Attribute) and \
+          v.func.attr == "get_column" and [text(a) for a in v.args] == [cid]
+    nodearg = b.get(eps[1])
+    is_col = isinstance(nodearg, ast.Attribute) and nodearg.attr == "node" and \
+        column_of(nodearg.value)
+    def key(e):
+      if isinstance(e, ast.Call) and isinstance(e.func, ast.Attribute) and \
+          e.func.attr == "is_formula" and not e.args and column_of(e.func.value):
+        return "is-formula"
+      return None
+    actual = H.Conditions(fn, bflow, key).of_stmt(_stmt_of(fn.node, pc), scope=loop)
+    ok = is_col and eps[2] in b and text(b[eps[2]]) == p_rows and eps[3] in b and \
+        isinstance(b[eps[3]], ast.Constant) and b[eps[3]].value is True and \
+        H.f_equivalent(actual, H.f_not(H.f_atom("is-formula"))) and \
+        not H.guards_of(fn.node, loop)
+    wit = "exempted when " + H.f_show(actual)
+    # the values are stored by this doc action
+    ok = ok and bool(_value_writers(fn))
+  run.ob(RID, fn.qualname, "if not col.is_formula(): prevent_recalc(col.node, %s, "
          "should_prevent=True)" % p_rows, "every data column the doc action writes is exempted "
          "from recalculation for exactly the rows written (an explicit value is kept)", ok,
          witness=wit, fi=fn.fi)
+
+
+def _value_writers(fn):
+  """CFG nodes at which a record doc action stores caller-supplied cell values (its column-values
+  parameter) and leaves the rows invalidated: Column.set(row, <value>) / Engine.add_records(...,
+  <values>). (Unsetting old rows is not storing supplied values; load_table, used to replace a
+  table's data wholesale, does not invalidate stored columns and is not counted.)"""
+  ps = fn.fi.params()
+  if len(ps) < 4:
+    return set()
+  du = H.Flow(fn).du
+  supplied = lambda x: isinstance(x, ast.Name) and x.id == ps[3] and isinstance(x.ctx, ast.Load)
+  out = set()
+  for (n, c, nm) in fn.calls():
+    if (E.is_column_mutation(c, nm, fn) and c.func.attr == "set") or \
+        E.is_engine_call("add_records")(c, nm, fn):
+      if any(du.flows_from(supplied, a) for a in list(c.args) + [k.value for k in c.keywords]):
+        out.add(n.id)
+  return out
+
+
+def r3_exemptions(run, w):
+  R3 = run.rule("C15-R3", "explicit values are exempted by the doc action; the exemption map is "
+                "written only by prevent_recalc, cleared per user action, and only read by "
+                "_recompute_step, which subtracts it without mutation", floor=8)
+  # doc action
+  _exempts_supplied(run, R3, w, w.fn("docactions.DocActions.BulkUpdateRecord"))
   pe = w.fn("engine.Engine.prevent_recalc")
   eps = pe.fi.params()
   pflow = H.Flow(pe)
@@ -1024,6 +1053,91 @@ def r7_edges_removed_by_dependent_only(run, w):
     raise AnalysisError("depend.Graph: no removal from the edge set found")
 
 
+# --------------------------------------------------------------------------------------- R8
+
+def r8_sibling_agreement(run, w):
+  """Adds and updates agree on explicit values for trigger-formula columns: every record doc
+  action that itself stores supplied cell values exempts them (prevent_recalc(..., True) for each
+  supplied non-formula column), and both user-action paths lift the exemption again for -- and
+  only for -- supplied data columns whose record has recalcOnChangesToSelf."""
+  R8 = run.rule("C15-R8", "every record doc action storing supplied values exempts them; both "
+                "user-action paths lift the exemption only under recalcOnChangesToSelf",
+                floor=4)
+  ci = w.repo.cls("docactions.DocActions")
+  fields = w.action_types()
+  n = 0
+  for name in sorted(H.RECORD_ACTIONS):
+    m = ci.methods.get(name)
+    if m is None:
+      continue
+    fn = w.fn_of(m)
+    if not _value_writers(fn):
+      continue          # delegates to a sibling (AddRecord -> BulkAddRecord) or loads wholesale
+    n += 1
+    _exempts_supplied(run, R8, w, fn)
+  if n < 2:
+    raise AnalysisError("docactions.DocActions: record actions storing values not found")
+  for q in ("useractions.UserActions.doBulkUpdateRecord",
+            "useractions.UserActions.doBulkAddOrReplace"):
+    fn = w.fn(q)
+    flow = H.Flow(fn)
+    ps = fn.fi.params()
+    p_table = ps[1]
+    pe = w.fn("engine.Engine.prevent_recalc")
+    eps = pe.fi.params()
+    lifts = []
+    for (n_, c, nm) in fn.calls():
+      if E.is_engine_call("prevent_recalc")(c, nm, fn):
+        b = H.bind_args(c, pe.fi)
+        if eps[3] in b and isinstance(b[eps[3]], ast.Constant) and b[eps[3]].value is False:
+          lifts.append((n_, c, b))
+    if len(lifts) != 1:
+      if not lifts and H.called_elsewhere(w, "prevent_recalc", (
+          "docactions.DocActions", "useractions.UserActions.doBulkUpdateRecord",
+          "useractions.UserActions.doBulkAddOrReplace", "engine.Engine")):
+        raise AnalysisError("%s: the exemption is not lifted here; prevent_recalc is called "
+                            "elsewhere, cannot follow" % q)
+      run.ob(R8, q, "prevent_recalc(col.node, <rows>, should_prevent=False)", "a supplied value "
+             "for a column that depends on itself is still processed by its trigger formula",
+             False, witness="%d such calls" % len(lifts), fi=fn.fi)
+      continue
+    (ln, lc, lb) = lifts[0]
+    # the column loop and the column object
+    loops = H._enclosing_loops(fn.node, _stmt_of(fn.node, lc))
+    nodearg = lb.get(eps[1])
+    if not loops or not (isinstance(nodearg, ast.Attribute) and nodearg.attr == "node"):
+      raise AnalysisError("%s: cannot read for which column the exemption is lifted" % q)
+    colx = text(H.inline(flow, nodearg.value, ln.id))
+    cl = loops[-1]
+    tnames = [e.id for e in ast.walk(cl.target) if isinstance(e, ast.Name)]
+    def key(e, colx=colx, tnames=tnames, fn=fn, flow=flow, p_table=p_table):
+      e2 = H.inline(flow, e)
+      t2 = text(e2)
+      if t2 == "%s.is_formula()" % colx or \
+          (isinstance(e, ast.Call) and isinstance(e.func, ast.Attribute) and
+           e.func.attr == "is_formula" and text(H.inline(flow, e.func.value)) == colx):
+        return "is-formula"
+      if isinstance(e, ast.Call) and isinstance(e.func, ast.Attribute) and \
+          e.func.attr == "has_formula" and text(H.inline(flow, e.func.value)) == colx:
+        return "has-formula"
+      if isinstance(e2, ast.Attribute) and e2.attr == "recalcOnChangesToSelf" and \
+          any(_col_rec_lookup(fn, text(e2.value), p_table, tn) for tn in tnames):
+        return "depends-on-itself"
+      return None
+    cond = H.Conditions(fn, flow, key)
+    actual = cond.of_stmt(_stmt_of(fn.node, lc), scope=cl)
+    selfdep = H.f_atom("depends-on-itself")
+    if "depends-on-itself" not in H.f_atoms(actual) and \
+        any(isinstance(a, str) and "recalcOnChangesToSelf" in a for a in H.f_atoms(actual)):
+      raise AnalysisError("%s: cannot tell whose recalcOnChangesToSelf is tested: %s"
+                          % (q, H.f_show(actual)))
+    run.ob(R8, q, "if col_rec.recalcOnChangesToSelf: prevent_recalc(col.node, <rows>, "
+           "should_prevent=False)", "the exemption of an explicit value is lifted only for a "
+           "column that depends on itself (any other trigger column keeps the value it was "
+           "given)", H.f_equivalent(H.f_and(actual, H.f_not(selfdep)), H.F_FALSE),
+           witness="lifted when " + H.f_show(actual), fi=fn.fi, node=lc)
+
+
 # --------------------------------------------------------------------------------------- R6
 
 def r6_enum(run, w, repo):
@@ -1129,8 +1243,34 @@ VARIANTS = [
    "    self._engine.invalidate_records(table_id, row_ids, data_cols_to_recompute=recalc_cols)",
    "C15-R2"),
   ("explicit-values-not-protected", D,
-   "      if not col.is_formula():\n        self._engine.prevent_recalc(col.node, row_ids, should_prevent=True)\n",
-   "", "C15-R3"),
+   "        col.set(row_id, value)\n\n      # Non-formula columns may get invalidated and recalculated if they have a trigger formula.\n      # Prevent such recalculation if we set an explicit value for them (we want to prevent it\n      # even if triggered by something else within the same useraction).\n      if not col.is_formula():\n        self._engine.prevent_recalc(col.node, row_ids, should_prevent=True)\n",
+   "        col.set(row_id, value)\n", "C15-R3"),
+  # the two halves of the add/update agreement (fix eee5052), each removed
+  ("added-values-not-protected", D,
+   """    for col_id in column_values:
+      col = table.get_column(col_id)
+      if not col.is_formula():
+        self._engine.prevent_recalc(col.node, row_ids, should_prevent=True)
+
+  def RemoveRecord(""", """  def RemoveRecord(""", "C15-R8"),
+  ("added-self-dependent-value-not-processed", U,
+   """        col_rec = self._docmodel.columns.lookupOne(tableId=table_id, colId=col_id)
+        if col_rec.recalcOnChangesToSelf:
+          self._engine.prevent_recalc(col_obj.node, filled_row_ids, should_prevent=False)
+""", "", "C15-R8"),
+  ("added-values-released-for-every-trigger-column", U,
+   """        if col_rec.recalcOnChangesToSelf:
+          self._engine.prevent_recalc(col_obj.node, filled_row_ids, should_prevent=False)
+""", """        self._engine.prevent_recalc(col_obj.node, filled_row_ids, should_prevent=False)
+""", "C15-R8"),
+  ("added-values-protected-for-formula-columns-only", D,
+   """      if not col.is_formula():
+        self._engine.prevent_recalc(col.node, row_ids, should_prevent=True)
+
+  def RemoveRecord(""", """      if col.is_formula():
+        self._engine.prevent_recalc(col.node, row_ids, should_prevent=True)
+
+  def RemoveRecord(""", "C15-R8"),
   ("exemptions-cleared-once-per-bundle", EN,
    """    checkpoint = self._get_undo_checkpoint()
     try:
